@@ -49,7 +49,7 @@ TEXT = {
          'against iff + slot mapping (KDF context through the R9 loop rewrite with a verified invariant); all encoders against functional CV specs; the ClaimsSet fixed point (decode-encode-decode gives the same claims set, re-encoding the same value) and determinism of the decode relation are proved lemmas. Set semantics of BTreeSet<ClaimName> is assumed on well-formed labels (R10 shims).', '4 C18'),
  'C19': ('Every builder method (macro-expanded setters via contracts generated from each macro invocation, hand-written ones by inserted contracts) is verified against a whole-struct frame postcondition r.inner() == T { field: value, ..self.inner() }; '
          'iv/partial_iv clear each other; builder_set_protected! resets original_data; key constructors are verified to produce exactly kty + named parameters; the four reserved-label guards are verified under the documented precondition and '
-         'their necessity copies (precondition removed) must fail at the panic. IV exclusivity along ANY sequence of HeaderBuilder calls is a proved reachability lemma over the per-call contracts (lemma_builder_iv_exclusive); other sequence claims: composition of these total per-call contracts (induction on paper).', '4 C19'),
+         'their necessity copies (precondition removed) must fail at the panic; since that shows only that SOME call outside the precondition panics, a bounded probe on the real crate (run with every check, reported as bounded) calls every reserved label and a few non-reserved ones. IV exclusivity along ANY sequence of HeaderBuilder calls is a proved reachability lemma over the per-call contracts (lemma_builder_iv_exclusive); other sequence claims: composition of these total per-call contracts (induction on paper).', '4 C19'),
  'C01': ('Every exec function on the decode path (read_to_value, the trait default methods, all from_cbor_value/from_cbor_bstr/_nested functions, the Value extractors) and every follow-up helper (to_cbor_value, to_vec, tbs_*, verify_*, tbm, decrypt, canonicalize) is verified by Verus '
          'to be panic-free (no unwrap/expect/panic!/index/remove out of range/arithmetic overflow reachable) and terminating for ALL inputs, with no precondition or only the documented ones; lemmas show that every decoded value meets the helpers\' serialisability precondition. '
          'Termination of the Header <-> CoseSignature <-> ProtectedHeader recursion is proved with the measure (16 - depth, value) introduced by the nesting-limit fix, so re-parse depth is at most 16 and Value-level depth is bounded by ciborium\'s 256. '
